@@ -204,6 +204,151 @@ def legacy_variants(rng, tj):
     return j, what
 
 
+# ---------------------------------------------------------------------------
+# reader side / orange-update: documents the reader accepts, aimed at the
+# exceptions of ReaderProofs.dec_input_wf_iff (rx_input) and at their
+# boundaries
+
+def _f(x):
+    return "#f" + L.bits(x)
+
+
+def reader_variants(rng, tj):
+    """Rewrite a tagged to_json tree into another document the reader accepts
+    (mostly); returns (doc, what)."""
+    j = json.loads(json.dumps(tj))
+    what = []
+    units = [u for u in j.get("universes", []) if u.get("_type") == "#sunit"]
+    rects = [u for u in j.get("universes", []) if u.get("_type") != "#sunit"]
+    vols = [v for u in units for v in u.get("volumes", []) if v.get("zorder") != "#sB"]
+    c = rng.random()
+    if c < 0.12 and vols:
+        v = rng.choice(vols)
+        v["logic"] = "#s" + rng.choice(["", " ", "   "]); what.append("empty-logic")
+        if rng.random() < 0.6:
+            v["flags"] = 2; what.append("implicit-vol-flag")
+    elif c < 0.30 and vols:
+        v = rng.choice(vols)
+        n = rng.choice([L.LOPEN, L.LCLOSE, L.LEND, L.LTRUE, L.LOR, L.LAND, L.LNOT, L.LBEGIN - 1,
+                        L.UINT, L.UINT + 3, 2 * L.UINT + L.LOPEN, 10 * L.UINT + 7, 0, 7])
+        tok = {L.LOPEN: "digits-lopen", L.LCLOSE: "digits-lclose", L.LEND: "digits-lend"}.get(n % L.UINT, "digits-other")
+        pre = rng.choice(["", "0 ", "* ", "1 ~ "])
+        post = rng.choice(["", " ~", " 2 &", " |"])
+        v["logic"] = "#s" + pre + rng.choice(["", "000"]) + str(n) + post; what.append(tok)
+    elif c < 0.42 and vols:
+        v = rng.choice(vols)
+        k = rng.random()
+        if k < 0.5:
+            v["bbox"] = [[_f(1.0), _f(rng.choice([0.0, 1.0, 2.0])), _f(1.0)], [_f(0.0), _f(3.0), _f(2.0)]]; what.append("vol-bbox-inverted")
+        elif k < 0.7:
+            v["bbox"] = None; what.append("vol-bbox-null")
+        elif k < 0.85:
+            v["bbox"] = [[_f(-L.DBL_MAX)] * 3, [_f(L.DBL_MAX)] * 3]; what.append("vol-bbox-explicit-infinite")
+        else:
+            v["bbox"] = [[_f(0.0), _f(0.0), _f(-0.0)], [_f(0.0), _f(-0.0), _f(0.0)]]; what.append("vol-bbox-degenerate")
+    elif c < 0.52 and units:
+        u = rng.choice(units)
+        k = rng.random()
+        if k < 0.4:
+            u["bbox"] = None; what.append("unit-bbox-null")
+        elif k < 0.7:
+            u["bbox"] = [[_f(2.0), _f(0.0), _f(0.0)], [_f(1.0), _f(1.0), _f(1.0)]]; what.append("unit-bbox-inverted")
+        elif k < 0.85:
+            u["bbox"] = [[_f(-L.DBL_MAX)] * 3, [_f(L.DBL_MAX)] * 3]; what.append("unit-bbox-explicit-infinite")
+        else:
+            u.pop("bbox", None); what.append("unit-bbox-absent")
+    elif c < 0.72 and (units or rects):
+        lab = "#s" + rng.choice(["a@b@", "a@@", "@", "@@", "a@", "@x", "a@b@c", "n@@e", "plain", "", "x@y"])
+        tgt = rng.random()
+        u = rng.choice(units or rects)
+        if tgt < 0.35 or u not in units:
+            u["md"]["name"] = lab; what.append("universe-label")
+        elif tgt < 0.7 and u.get("volume_labels"):
+            u["volume_labels"][rng.randrange(len(u["volume_labels"]))] = lab; what.append("volume-label")
+        elif u.get("surface_labels"):
+            u["surface_labels"][rng.randrange(len(u["surface_labels"]))] = lab; what.append("surface-label")
+        else:
+            u["md"]["name"] = lab; what.append("universe-label")
+        what.append("label:" + lab[2:])
+    elif c < 0.84 and vols:
+        v = rng.choice(vols)
+        z = rng.choice([0, 1, 2, 3, 4, 5, 6, 7, 65532, 65533, 65534, 65535, 65536, L.UINT - 3, L.UINT - 2, L.UINT - 1])
+        v["zorder"] = z; what.append("int-zorder:%d" % z)
+    elif c < 0.90 and vols:
+        v = rng.choice(vols)
+        v["zorder"] = "#s" + rng.choice(["!", "?", "m", "b", "x", "X", "A", "H"]); what.append("char-zorder")
+    else:
+        what.append("unchanged")
+    return j, what
+
+
+def py_wire(t):
+    """what parse(dump(.)) makes of a tagged tree: non-finite doubles become null"""
+    if isinstance(t, str) and t.startswith("#f"):
+        x = L.unbits(t[2:])
+        return t if x == x and abs(x) != L.INF else None
+    if isinstance(t, list):
+        return [py_wire(e) for e in t]
+    if isinstance(t, dict):
+        return {k: py_wire(v) for k, v in t.items()}
+    return t
+
+
+def t_upd(j):
+    return " ".join(L.t_json(j, ["UPD"]))
+
+
+def check_update_case(ctx, c, what, res, mo, report_dis, stats):
+    """One document through orange-update twice: implementation vs model, then
+    the property oracle (second pass is a fixed point whenever the model says
+    the decoded input is none of the exceptions)."""
+    for w in what:
+        ctx.count("upd:" + (w if not w.startswith("label:") else "label-string"))
+    ctx.case(("upd", c["j"]), nontrivial=("j1" in res))
+    if "crash" in res or "harness_err" in res:
+        if mo["dec"]:
+            report_dis("correspondence", "orange-update crashed on a document the model decodes", {"json": c["j"], "what": what, "res": res})
+        return
+    impl_dec = "err1" not in res
+    if impl_dec != bool(mo["dec"]):
+        report_dis("correspondence", "orange-update pass 1: implementation %s, model %s (%s)" % (
+            "succeeds" if impl_dec else "throws: " + res.get("err1", "")[:80], "decodes" if mo["dec"] else "rejects", ",".join(what)),
+            {"json": c["j"], "what": what})
+        return
+    if not impl_dec:
+        stats["rejected"] += 1
+        return
+    mj1 = L.m_json(mo["j1w"], "T") if mo["j1w"] is not None else None
+    if mj1 != res.get("j1"):
+        report_dis("correspondence", "orange-update pass-1 output differs from the model's update_file at %s (%s)" % (
+            L.first_diff(res.get("j1"), mj1), ",".join(what)), {"json": c["j"], "what": what, "impl": res.get("j1"), "model": mj1})
+    impl2 = None if "err2" in res else (res["j1"] if res.get("fixed") else res.get("j2"))
+    mj2 = L.m_json(mo["j2"], "T") if mo["j2"] is not None else None
+    if impl2 != mj2 and mj1 == res.get("j1"):
+        report_dis("correspondence", "orange-update pass-2 differs from the model (%s): impl %s, model %s" % (
+            ",".join(what), "throws" if impl2 is None else "writes", "fails" if mj2 is None else "writes"),
+            {"json": c["j"], "what": what, "impl": impl2, "model": mj2, "err2": res.get("err2")})
+    # property oracle on the implementation
+    fixed = bool(res.get("fixed")) and res.get("x2") == res.get("x1") and "x1" in res
+    if mo["rx"]:
+        stats["rx"] += 1
+        if not mo["wf"]:
+            report_dis("correspondence", "model: decoded input satisfies rx but not wf (contradicts dec_input_wf_iff)", {"json": c["j"]})
+        if not fixed:
+            stats["bad"] += 1
+            if stats["bad"] <= 5:
+                ctx.violation("round-trip", "orange-update: a document the reader accepts (none of the listed exceptions) "
+                              "is not a fixed point at the second pass: %s" % (res.get("err2") or L.first_diff(res.get("x1"), res.get("x2")) or "text differs"),
+                              {"document_tagged": c["j"], "variation": what, "pass1": res.get("j1"), "pass2": res.get("j2"),
+                               "err2": res.get("err2"), "how": "app/orange-update.cc run() twice"})
+    else:
+        stats["exception"] += 1
+        kind = "fails" if "err2" in res else ("value-changes" if res.get("x2") != res.get("x1") else "survives")
+        ctx.count("upd-exception:" + kind)
+        if fixed:
+            stats["exception_survives"] += 1
+
+
 def run(ctx):
     quick = ctx.tier == "quick"
     n_gen = 400 if quick else 6000
@@ -244,7 +389,7 @@ def run(ctx):
 
     # 2. proofs
     proofs_ok = ctx.coq_prove("Properties_C19.v")
-    ok, log = ctx.coq_build(["C19/Run.vo"])
+    ok, log = ctx.coq_build(["C19/Run.vo", "C19/Reader.vo"])
     if not ok:
         ctx.violation("model-broken", "the executable model no longer compiles", {"log": log[-2000:]}, no_input=True)
         return
@@ -308,6 +453,18 @@ def run(ctx):
     if xi["universes"][0]["surface_labels"]:
         xi["universes"][0]["surface_labels"].append(["inv", ""])
     gcases.append(({"id": n_gen, "mode": "rt", "x": xi}, ["involute"] + list(g.odd)))
+    # inputs as UnitProto builds them: an OBZ on every volume (C19_dec_enc_orange_input_obz:
+    # exactly the OBZ is lost)
+    for k in range(8 if quick else 60):
+        xo = g.input(odd=False)
+        nv = 0
+        for u in xo["universes"]:
+            if u["k"] == "unit":
+                for v in u["volumes"]:
+                    v["obz"] = {"inner": g.bbox("finite"), "outer": g.bbox("finite"), "tid": ctx.rng.randrange(5)}
+                    nv += 1
+        if nv:
+            gcases.append(({"id": len(gcases), "mode": "rt", "x": xo}, ["obz-all"]))
     gres = run_cases(ctx, exe, [c for c, _ in gcases])
     gexprs = [L.t_input(c["x"]) for c, _ in gcases]
 
@@ -349,6 +506,20 @@ def run(ctx):
                           {"input_D_form": x, "observed": bad, "model_wf": wfb, "oddities": odd,
                            "gallina": L.g_input(x)},
                           signature=SIG_INVOLUTE if (has_involute(x) and "crash" in res) else None)
+        if odd and all(o in ("obz", "obz-all") for o in odd):
+            # oracle for the OBZ theorem on the implementation: everything but the OBZ survives
+            xd = json.loads(json.dumps(x))
+            for u in xd["universes"]:
+                if u["k"] == "unit":
+                    for v in u["volumes"]:
+                        v["obz"] = None
+            if res.get("x2") != xd:
+                found_input = True
+                ctx.violation("round-trip", "input with OBZ: more than the OBZ is lost in the JSON round trip: %s" % (
+                    L.first_diff(xd, res.get("x2")) if "x2" in res else (bad or "no result")),
+                    {"input_D_form": x, "observed": bad, "gallina": L.g_input(x)})
+            else:
+                ctx.count("obz-exactly-lost")
         if not bad and not wfb:
             ctx.count("survives-although-not-wf")
         dis = compare_with_model(res, mv)
@@ -383,6 +554,55 @@ def run(ctx):
             report_dis("correspondence", "reader and model dec differ on a legacy-spelling document (%s): %s" % (",".join(what), d),
                        {"json": c["j"], "variation": what, "impl": impl, "model": model})
 
+
+    # 3d. reader side / orange-update (app/orange-update.cc): every document the
+    # reader accepts, two passes of the real tool vs the model's update_file,
+    # oracle: second pass is a fixed point unless the decoded input is one of
+    # the exceptions (rx_input = false)
+    n_upd = 260 if quick else 3000
+    ucases, uexprs, uwhat = [], [], []
+    pool = leg_sources or []
+    for i in range(min(n_upd, 8 * len(pool)) if pool else 0):
+        tj = pool[ctx.rng.randrange(len(pool))]
+        if ctx.rng.random() < 0.35:
+            tj, w0 = legacy_variants(ctx.rng, tj)
+            w0 = ["legacy"] if w0 else []
+        else:
+            w0 = []
+        j, what = reader_variants(ctx.rng, tj)
+        j = py_wire(j)     # a parsed document contains no non-finite number
+        ucases.append({"id": i, "mode": "update", "j": j})
+        uexprs.append(t_upd(j))
+        uwhat.append(w0 + what)
+    ures = run_cases(ctx, exe, ucases)
+    umod = model_eval(ctx, mexe, uexprs)
+    ustats = {"rx": 0, "bad": 0, "exception": 0, "exception_survives": 0, "rejected": 0}
+    for c, what, res, mo in zip(ucases, uwhat, ures, umod):
+        check_update_case(ctx, c, what, res, mo, report_dis, ustats)
+    # bundled files through the real tool, twice
+    ufcases = [{"id": i, "mode": "updfile", "path": p} for i, p in enumerate(files)]
+    ufres = run_cases(ctx, exe, ufcases)
+    for c, res in zip(ufcases, ufres):
+        name = os.path.basename(c["path"])
+        ctx.case("updfile:" + name, nontrivial=("j1" in res))
+        involute = '"inv"' in open(c["path"]).read()
+        if "crash" in res:
+            if not involute:
+                ctx.violation("round-trip", "orange-update crashes on bundled %s" % name, {"file": c["path"]})
+            continue   # the involute crash is reported once, by the round-trip stage
+        if "err1" in res:
+            ctx.notes.append("orange-update rejects bundled %s: %s" % (name, res["err1"][:120]))
+            ctx.count("updfile-rejected")
+            continue
+        ctx.count("updfile-accepted")
+        if not (res.get("fixed") and res.get("x1") == res.get("x2")):
+            ctx.violation("round-trip", "orange-update on bundled %s: second pass is not a fixed point: %s" % (
+                name, res.get("err2") or L.first_diff(res.get("x1"), res.get("x2")) or "text differs"),
+                {"file": c["path"], "how": "orange-update f a; orange-update a b; cmp a b", "err2": res.get("err2")})
+    ctx.coverage["orange_update"] = dict(ustats, documents=len(ucases), bundled=len(ufcases))
+    ctx.log("orange-update: %d documents (%d outside the exceptions, %d exceptions, %d rejected), %d bundled files" % (
+        len(ucases), ustats["rx"], ustats["exception"], ustats["rejected"], len(ufcases)))
+
     found_input = any(not v["no_input"] for v in ctx.violations)   # known findings do not count
     if not proofs_ok and not found_input:
         ctx.violation("proof-broken", "Properties_C19.v no longer checks", ctx.broken_proof, no_input=True)
@@ -392,6 +612,6 @@ def run(ctx):
                             "(1/4 with one deliberate departure from wf) + decoder-only documents with legacy key spellings; "
                             "all random choices from VERIF_SEED; non-trivial = the implementation produced a re-read input; "
                             "distinct by full input")
-    ctx.coverage["traces_validated_against_impl"] = len(fidx) + len(gcases) + len(lcases)
+    ctx.coverage["traces_validated_against_impl"] = len(fidx) + len(gcases) + len(lcases) + len(ucases) + len(ufcases)
     ctx.coverage["disagreements"] = ndis
     ctx.coverage["generated_inputs_failing_round_trip"] = nrt
